@@ -204,6 +204,10 @@ class Blockwise(ArrayExpr):
 
         if any(isinstance(op, Delayed) for op in self.operands):
             return False
+        # ... and the same holds for dask collections handed over by keyword
+        # (``_layer`` unpacks them; the fused task would pass them on as is)
+        if any(unpack_collections(v)[1] for v in (self.kwargs or {}).values()):
+            return False
 
         # Check for contracted dimensions with multiple blocks
         # These are dimensions in input but not in output - we can only fuse
